@@ -35,4 +35,10 @@ LAddSmall(l, k) ==
 LCanon(l) == LET nz == {i \in 1..Len(l) : l[i] # 0}
              IN IF nz = {} THEN <<0>> ELSE SubSeq(l, 1, SetMax(nz))
 LEq(a, b) == LCanon(a) = LCanon(b)
+\* a >= b on limb numbers
+LGeq(a, b) == LET x == LCanon(a) y == LCanon(b) IN
+              IF Len(x) # Len(y) THEN Len(x) > Len(y)
+              ELSE LET d == {i \in 1..Len(x) : x[i] # y[i]} IN d = {} \/ x[SetMax(d)] > y[SetMax(d)]
+\* m^n as a limb number (m < 2^15)
+LPow(m, n) == FoldLeft(LAMBDA acc, i : LCanon(LMulSmall(acc, m)), <<1>>, [k \in 1..n |-> k])
 =============================================================================
